@@ -331,8 +331,10 @@ def rel3(ctx, c):
     where = repo.loc(fn, fn.node)
     params = [p for p in fn.params if p != "self"]
     this_name = params[1]
+    from ..inline import flatten
+    flat = flatten(repo, fn, depth=2)
     try:
-        outs = Interp(fn.node, consts=ctx.env).run()
+        outs = Interp(flat, consts=ctx.env).run()
     except PathCap as e:
         c.undecided("determine_pcr_relative_sizes", "path-cap", str(e), where)
         return
